@@ -441,6 +441,9 @@ def main(tier):
     tmo = 600 if tier == "quick" else 2400
     deadline = t0 + (1500 if tier == "quick" else 3300)
     cfgs = CONFIGS[tier]
+    only = os.environ.get("VERIF_C09_ONLY")        # development aid: run the configurations whose name contains this text
+    if only:
+        cfgs = [c for c in cfgs if only in c["name"]] or cfgs
     results = list(common.fork_map(_cfg_worker, [(progs, c, tmo, deadline) for c in cfgs], min(len(cfgs), 4)))
     if "inconclusive" in results[0]:
         raise Inconclusive(results[0]["inconclusive"])
